@@ -90,7 +90,7 @@ def finalize (p : Pieces) : Fin :=
   let ft := lookupTable p.fragTbl loc               -- writeFragmentTable
   let loc := loc + ft.2.1
   let ex : List W × Nat × Nat := match p.exportTbl with   -- writeExportTable unless NonExportable
-    | none => ([], 0, 0)
+    | none => ([], 0, absent64)   -- not written: the start field holds the "not present" mark (fix in /repo)
     | some e => lookupTable e loc
   let loc := loc + ex.2.1
   let idt := lookupTable p.idTbl loc                -- writeIDTable
